@@ -58,7 +58,7 @@ func doLiveness(c *kit.Ctx, x lvCase) {
 	if x.Pool == "healthy" || x.Pool == "willpatch" || x.Pool == "notowner" {
 		np := &v1.NodePool{ObjectMeta: metav1.ObjectMeta{Name: "pool", UID: types.UID("pool-uid")}}
 		np.Spec.Template.Spec.NodeClassRef = classRef(true)
-		kit.Apply(ctx, w.inner, np)
+		w.add(np)
 		uid := np.UID
 		if x.Pool == "notowner" {
 			uid = "someone-else"
@@ -68,14 +68,11 @@ func doLiveness(c *kit.Ctx, x lvCase) {
 			state.Update(np.UID, false) // one earlier failure: the next one makes the window unhealthy
 		}
 	}
-	// conditions: explicit ones first, the rest is initialised by StatusConditions() exactly as the
-	// lifecycle controller's earlier sub-reconcilers do (operatorpkg stamps them with the real clock)
+	// conditions: explicit ones first; the rest is initialised by StatusConditions() exactly as the lifecycle
+	// controller's earlier sub-reconcilers do (operatorpkg stamps a new dependent condition with the object's
+	// creation time)
 	t0 := baseTime()
-	if x.Launched == "Init" || x.Registered == "Init" {
-		probe := &v1.NodeClaim{}
-		probe.StatusConditions()
-		t0 = probe.StatusConditions().Get(v1.ConditionTypeLaunched).LastTransitionTime.Time.Add(time.Second).Truncate(time.Second)
-	}
+	nc.CreationTimestamp = metav1.Time{Time: t0.Add(-7 * time.Second)}
 	if x.Launched != "Init" {
 		nc.Status.Conditions = append(nc.Status.Conditions, cond(v1.ConditionTypeLaunched, condStatus(x.Launched), t0))
 	}
@@ -84,9 +81,9 @@ func doLiveness(c *kit.Ctx, x lvCase) {
 	}
 	nc.StatusConditions()
 	if x.Present {
-		stored := nc.DeepCopy()
-		kit.Apply(ctx, w.inner, stored)
+		w.add(nc.DeepCopy())
 	}
+	w.build()
 	get := func(t string) (*status.Condition, string) {
 		cd := nc.StatusConditions(status.WithObservedOnly()).Get(t)
 		if cd == nil {
@@ -159,9 +156,6 @@ func doLiveness(c *kit.Ctx, x lvCase) {
 	key := ""
 	if x.Registered != "True" {
 		key = "L:" + in
-		if x.Launched == "Init" || x.Registered == "Init" {
-			key = fmt.Sprintf("L:init:%+v", x) // the initialised timestamps are wall-clock
-		}
 	}
 	c.AddCase(fmt.Sprintf("CaseL %s %d %s", in, len(dels), rc), J{"reaper": "liveness", "case": x, "branch": branch}, key)
 }
